@@ -416,7 +416,11 @@ func (s *Service) handleConn(conn net.Conn) {
 			s.processRemoveHintedHandoffRequest(conn)
 			return
 		default:
-			s.Logger.Warn("Coordinator service message type not found", zap.Uint8("Type", typ))
+			// The length and payload of a record of unknown type cannot be skipped reliably
+			// (the type may be bodiless, or this may not be a TLV stream at all): reading on
+			// would interpret its bytes as further requests.  Drop the connection.
+			s.Logger.Warn("Coordinator service message type not found, closing connection", zap.Uint8("Type", typ))
+			return
 		}
 	}
 }
